@@ -475,7 +475,7 @@ fn coef() -> impl Strategy<Value = (u64, u64)> {
     ]
 }
 
-fn decorated(pool: &UnitPool, idx: usize, prefix: Option<usize>, plural: bool) -> String {
+pub fn decorated(pool: &UnitPool, idx: usize, prefix: Option<usize>, plural: bool) -> String {
     let mut s = String::new();
     if let Some(p) = prefix {
         s.push_str(&pool.prefixes[p % pool.prefixes.len()]);
